@@ -140,6 +140,41 @@ def one(rep, rng, j):
         for n in r3['unmarked']:
             if n in req3:
                 rep.violation('hit-meta-missing', f'requested {n} unmarked in fresh interpreter', wit)
+        # ---- instance reuse: the entries are replaced (bust_cache, new instances, other backend), then the cache
+        # is hit with the ORIGINAL instances, which still carry the result_meta of the overwritten execution
+        if rng.random() < 0.7:
+            B4, B5 = rng.choice(['serial', 'fork', 'spawn']), rng.choice(['serial', 'fork', 'spawn'])
+            engine.write_plan(ctl, 3, shapes)
+            b4 = Built(spec)
+            lab4 = labtech.Lab(storage=make_storage(skind, store), runner_backend=B4, max_workers=2, context=ctx)
+            try:
+                res4 = lab4.run_tasks([b4.inst(n) for n in names], bust_cache=True, disable_progress=True, disable_top=True)
+            except BaseException as ex:   # noqa
+                rep.inconclusive(f'bust_cache run raised {type(ex).__name__}', wit)
+                res4 = None
+            if res4 is not None:
+                full4 = {t.name: v for t, v in res4.items()}
+                meta4 = {n: b4.canon[n].result_meta for n in names}
+                engine.write_plan(ctl, 4, shapes)
+                pre = len(events.read_events(ctl))
+                lab5 = labtech.Lab(storage=make_storage(skind, store), runner_backend=B5, max_workers=2, context=ctx)
+                old = [t for t in req1 if rng.random() < 0.7] or req1[:1]
+                try:
+                    res5 = lab5.run_tasks(old, disable_progress=True, disable_top=True)
+                except BaseException as ex:   # noqa
+                    rep.violation(f'reuse-run-raised:{type(ex).__name__}', f'cache hit with reused instances raised {ex}', wit)
+                    res5 = {}
+                if [e for e in events.read_events(ctl)[pre:] if e['k'] == 'start']:
+                    rep.violation('cache-hit-executed', f'reused instances: run() called again under {B5}', wit)
+                for t, v in res5.items():
+                    rep.count('reused_instance_hits')
+                    if v != full4[t.name]:
+                        rep.violation('hit-value-differs', f'{t.name} (reused instance after bust_cache): got '
+                                      f'{str(v)[:100]}, stored {str(full4[t.name])[:100]}', wit)
+                    if t.result_meta != meta4[t.name]:
+                        rep.violation('hit-meta-stale', f'{t.name}: a reused instance hit the cache ({B5}) after the entry was '
+                                      f'replaced under {B4}; result_meta is {t.result_meta}, the stored entry records '
+                                      f'{meta4[t.name]} (the overwritten execution had {meta1[t.name]})', wit)
         rep.case([json.dumps(spec, sort_keys=True), B1, B2, B3, skind], nloaded >= 2)
         rep.seen('backend_triples', f'{B1}>{B2}>{B3}')
         rep.count('big_results', sum(1 for s in shapes.values() if s['shape'] == 'big'))
@@ -156,8 +191,9 @@ def one(rep, rng, j):
 def run_shard(rep):
     from vlab.dagcommon import scenario_rng
     cfg = META['tiers'][rep.tier]
-    rep.require('hits_compared', 500)
-    rep.require('metas_compared', 500)
+    rep.require('hits_compared', 300)
+    rep.require('metas_compared', 300)
+    rep.require('reused_instance_hits', 100)
     for j in range(rep.shard, cfg['n'], rep.nshards):
         if rep.expired():
             rep.count('skipped_for_time')
